@@ -679,20 +679,54 @@ def precond(line):
 
 
 # =============================================================================================== running
+def hang_timeout(n):
+    """seconds allowed for a batch of n ops of the C driver (measured: ~1 ms per op)"""
+    return 20 + n // 100
+
+
+HANG_BUDGET = 2             # after this many hangs the remaining ops of the batch are not run
+
+
 def run_c_all(exe, lines):
     """run the C driver over all lines; a crash on an op is recorded as output '<crash rc=..>' and the run resumes
-    with the next op"""
+    with the next op.  A hang is a result too: the batch runs in its own process group under a timeout, the op that
+    did not return is recorded as '<crash rc=-9 (hang: no answer within ..s)>', and after HANG_BUDGET hangs the rest of
+    the batch is marked '<skipped: hang budget exhausted>' (judged `skip`)."""
     outs, pos = [], 0
-    crashes = []
+    crashes, hangs = [], 0
     while pos < len(lines):
-        rc, o, err = vlib.run_c([exe], lines[pos:])
+        if hangs >= HANG_BUDGET:
+            outs += ["<skipped: hang budget exhausted>"] * (len(lines) - pos)
+            break
+        tmo = hang_timeout(len(lines) - pos)
+        rc, o, err = vlib.run_c([exe], lines[pos:], timeout=tmo)
         outs += o
         pos += len(o)
         if pos < len(lines):
             crashes.append((pos, rc, err[-600:]))
-            outs.append("<crash rc=%d>" % rc)
+            if rc == -9:
+                hangs += 1
+                outs.append("<crash rc=-9 (hang: no answer within %ds, process group killed)>" % tmo)
+            else:
+                outs.append("<crash rc=%d>" % rc)
             pos += 1
     return outs, crashes
+
+
+def correspond_with(ctx, name, lines, couts, max_report=5):
+    """tie H: the C outputs already collected by the oracle stage (same binary, same lines) against the Lean model
+    driver, line by line; ops the C side never answered (hang budget) are not compared"""
+    idx = [i for i, c in enumerate(couts) if not c.startswith("<skipped")]
+    mout = ctx.driver([lines[i] for i in idx]) if idx else []
+    dis = []
+    for k, i in enumerate(idx):
+        m = mout[k] if k < len(mout) else "<no output>"
+        if couts[i] != m:
+            dis.append(dict(index=i, op=lines[i], impl=couts[i], model=m))
+    ctx.evaluations += len(lines)
+    ctx.obligation("correspondence " + name + " (%d ops)" % len(lines), not dis, json.dumps(dis[:max_report])[:600] if dis else "")
+    ctx.coverage.setdefault("correspondence", {})[name] = dict(ops=len(lines), compared=len(idx), disagreements=len(dis))
+    return dis
 
 
 def _verdict_job(t):
@@ -704,7 +738,7 @@ def judge(lines, couts, procs=12):
     if len(jobs) < 200:
         return [_verdict_job(j) for j in jobs]
     with multiprocessing.Pool(procs) as pool:
-        return pool.map(_verdict_job, jobs, chunksize=max(1, len(jobs) // (procs * 8)))
+        return pool.map_async(_verdict_job, jobs, chunksize=max(1, len(jobs) // (procs * 8))).get(timeout=1500)
 
 
 def shrink(exe, line, rounds=40):
@@ -757,8 +791,11 @@ def oracle_stage(ctx, exe, gen):
         ver = judge(lines, couts)
         res[fam] = (lines, classes, couts, ver)
         for i, (st, detail) in enumerate(ver):
+            if couts[i].startswith("<skipped"):
+                ver[i] = ("skip", couts[i])
+                continue
             if couts[i].startswith("<crash"):
-                st, detail = "bad", "C code crashed on this op: " + couts[i]
+                st, detail = "bad", "C code crashed or hung on this op: " + couts[i]
                 ver[i] = (st, detail)
             if st == "bad":
                 bads.append(dict(family=fam, index=i, op=lines[i], cls=classes[i], c_output=couts[i], oracle=detail))
@@ -813,6 +850,8 @@ def bad_to_violation(b):
 
 
 def run(ctx):
+    import a6_proc
+    a6_proc.install(vlib, ctx)      # children in own process groups, time-bounded, killed on exit
     ctx.trusted += ["GMP integers/rationals (mpz/mpq) modelled as exact Int / canonical pairs; mpz_gcdext cofactor normalisation modelled from its documentation and tied by q.xgcd ops",
                     "tools/harness/drv_quat.c (C driver: parsing/printing only, calls the library functions in-process)",
                     "tools/props/c14_oracle.py (independent exact oracle, python ints/Fractions; self-validated each run)",
@@ -873,7 +912,7 @@ def run(ctx):
         t = time.time()
         for fam in FAMILIES:
             lines, classes, couts, ver = res[fam]
-            dis = vlib.correspond(ctx, "quat-" + fam, lines, [exe])
+            dis = correspond_with(ctx, "quat-" + fam, lines, couts)
             seen = set()
             for d in dis:
                 o = d["op"].split()[0]
@@ -893,6 +932,8 @@ def run(ctx):
 
 
 def replay(ctx, rp):
+    import a6_proc
+    a6_proc.install(vlib, ctx)
     """./check C14 --replay replays/C14_*.json : re-run the recorded op line on the current tree"""
     r = rp.get("replay", {})
     line = r.get("op_line")
